@@ -73,6 +73,18 @@ class Trans(Case):
         s.dom = 'bits'
 
 
+class TransAssign(Case):
+    """D op= trans(A) / ctrans(A) for the five assignment operators (each has its own assign_* overload)"""
+    def __init__(s, T, M, N, kind, op):
+        sz = M * N; cplx = T in ('cfloat', 'cdouble')
+        a = Buf('a', T, sz); d = Buf('d', T, sz, 'inout')
+        k = f'Tensor<{cxx(T)},{M},{N}> A(a); Tensor<{cxx(T)},{N},{M}> D(d); D {op} {kind}(A); ' + copy_out('D', 'd', sz)
+        v = f'std::conj(a[i*{N}+j])' if (cplx and kind == 'ctrans') else f'a[i*{N}+j]'
+        r = f'for(int i=0;i<{M};++i) for(int j=0;j<{N};++j) d[j*{M}+i] {op} {v};'
+        Case.__init__(s, f'{kind}asg_{SHORT[T]}_{M}x{N}_{ {"=": "as", "+=": "pe", "-=": "me"}[op]}', [a, d], k, r, desc=f'D {op} {kind}(A) {M}x{N} {T}')
+        s.dom = 'uf'
+
+
 PAL = {2: [[3, 5], [4, 8], [9, 2], [5, 16]], 3: [[2, 3, 5], [4, 2, 9], [3, 8, 2]], 4: [[2, 3, 4, 5], [3, 2, 5, 4]], 5: [[2, 3, 2, 4, 3]], 6: [[2, 3, 2, 2, 3, 2]]}
 
 
@@ -105,6 +117,9 @@ def cases(tier, cfg, seed):
     for (M, N) in [(2, 2), (3, 4), (4, 4), (5, 3)]:
         for T in ('cdouble', 'cfloat'):
             out.append(Trans(T, M, N, 'ctrans')); out.append(Trans(T, M, N, 'transpose'))
+            for op in ('=', '+=', '-='): out.append(TransAssign(T, M, N, 'ctrans', op))
+    for T in ('double', 'float'):
+        for op in ('=', '+=', '-='): out.append(TransAssign(T, 3, 5, 'trans', op))
     return out
 
 
